@@ -268,12 +268,14 @@ def check_inert(d, M):
     try:
         if err is not None:
             return out
+        import html as pyhtml
         titles = set()
         for rel, dd in gen_site.walk(d):
+            # the author's title is the heading text with character references decoded (C18)
             if dd["readme"]:
-                titles.add(dd["readme"]["title"])
+                titles.add(pyhtml.unescape(dd["readme"]["title"]))
             for r in dd["recipes"]:
-                titles.add(r["title"])
+                titles.add(pyhtml.unescape(r["title"]))
         for f in gen_site.output_files(gen_out):
             if not f.endswith(".html"):
                 continue
